@@ -128,8 +128,15 @@ def rule_complete(chk):
         # header reads the three
         rets = common.returns_of(fcfg)
         hdr = " ".join(unparse(X.inline(f, r.ast.value)) for r in rets)
-        for k, nm in ((UU, "TASK_UUID_FIELD"), (TL, "TASK_LEVEL_FIELD")):
-            if "%s[%s]" % (fparam, nm) not in hdr:
+        hdr_reads = set()
+        for r in rets:
+            for x in ast.walk(X.inline(f, r.ast.value)):
+                if isinstance(x, ast.Subscript) and isinstance(x.value, ast.Name) and x.value.id == fparam:
+                    okk, kk = ctx.try_fold(f, x.slice)
+                    if okk:
+                        hdr_reads.add(kk)
+        for k in (UU, TL):
+            if k not in hdr_reads:
                 problems.append("the header does not show %s" % k)
         if not any(rt in ctx.targets(f, c) and c.args and isinstance(c.args[0], ast.Name) and c.args[0].id == fparam for r in rets for c in ast.walk(r.ast.value) if isinstance(c, ast.Call)):
             problems.append("the header does not show the timestamp")
